@@ -106,13 +106,15 @@ theorem mosaic_shape {K} (kern : Img K) (d os a b : Int) (hd : 0 < d) (hos : 0 <
     rw [show d * os * a = os * (d * a) by ring]; exact Int.mul_ediv_cancel_left _ (ne_of_gt hos)
   have e2 : d * os * b / os = d * b := by
     rw [show d * os * b = os * (d * b) by ring]; exact Int.mul_ediv_cancel_left _ (ne_of_gt hos)
-  simp only [mosaic, repeat1, repeat0, tile, h0, h1, e1, e2, Int.mul_ediv_cancel_left _ (ne_of_gt hd)]
+  simp only [mosaic, Gen.bayerTileReps, Gen.bayerRepeats, List.foldl, repeatAx, repeat1, repeat0, tile, h0, h1, e1, e2,
+    Int.mul_ediv_cancel_left _ (ne_of_gt hd), if_true, show ¬ ((1 : Int) = 0) by decide, if_false]
   constructor <;> ring
 
 /-- … and only then (otherwise NumPy raises a broadcast error, the model answers `none`) -/
 theorem mosaic_shape_only_if_multiple {K} (kern : Img K) (d os R C : Int) (h0 : kern.s0 = d) (h1 : kern.s1 = d)
     (h : (mosaic kern R C os).s0 = R ∧ (mosaic kern R C os).s1 = C) : d * os ∣ R ∧ d * os ∣ C := by
-  simp only [mosaic, repeat1, repeat0, tile, h0, h1] at h
+  simp only [mosaic, Gen.bayerTileReps, Gen.bayerRepeats, List.foldl, repeatAx, repeat1, repeat0, tile, h0, h1, if_true,
+    show ¬ ((1 : Int) = 0) by decide, if_false] at h
   exact ⟨⟨R / os / d, by rw [show d * os * (R / os / d) = os * (R / os / d * d) by ring]; exact h.1.symm⟩,
          ⟨C / os / d, by rw [show d * os * (C / os / d) = os * (C / os / d * d) by ring]; exact h.2.symm⟩⟩
 
@@ -169,6 +171,58 @@ theorem bayer_shape_of_multiple (d os a b : Int) (hd : 0 < d) (hos : 0 < os) :
   have h := mosaic_shape (K := Int) { s0 := d, s1 := d, get := fun _ _ => 0 } d os a b hd hos rfl rfl
   simp only [bayerShape, h.1, h.2, bcast, if_true]
 
+/-- refusal, exactly: for images of at least two rows and two columns the Bayer product is refused (broadcast error) if and only
+if the image size is not a multiple of pattern × oversampling in both directions -/
+theorem bayer_refused_iff (R C d os : Int) (hd : 0 < d) (hos : 0 < os) (hR : 1 < R) (hC : 1 < C) :
+    bayerShape R C d os = none ↔ ¬ (d * os ∣ R ∧ d * os ∣ C) := by
+  have key : ∀ n : Int, 1 < n → ((bcast n (os * (n / os / d * d))).isSome ↔ d * os ∣ n) := by
+    intro n hn
+    constructor
+    · intro h
+      simp only [bcast] at h
+      by_cases e : n = os * (n / os / d * d)
+      · exact ⟨n / os / d, by rw [show d * os * (n / os / d) = os * (n / os / d * d) by ring]; exact e⟩
+      · have hn1 : ¬ n = 1 := by omega
+        simp only [e, hn1, if_false] at h
+        by_cases e1 : os * (n / os / d * d) = 1
+        · exfalso
+          have ho : os = 1 := Int.eq_one_of_mul_eq_one_right (le_of_lt hos) e1
+          subst ho
+          simp only [one_mul, Int.ediv_one] at e1 e
+          have hd1 : d = 1 := Int.eq_one_of_mul_eq_one_left (le_of_lt hd) e1
+          subst hd1
+          simp at e1
+          omega
+        · simp [e1] at h
+    · rintro ⟨k, hk⟩
+      have e : n = os * (n / os / d * d) := by
+        have h1 : n / os = d * k := by rw [hk, show d * os * k = os * (d * k) by ring]; exact Int.mul_ediv_cancel_left _ (ne_of_gt hos)
+        rw [h1, Int.mul_ediv_cancel_left _ (ne_of_gt hd), hk]; ring
+      simp only [bcast]
+      rw [if_pos e]; rfl
+  have hs0 : (mosaic (K := Int) { s0 := d, s1 := d, get := fun _ _ => 0 } R C os).s0 = os * (R / os / d * d) := by
+    simp only [mosaic, Gen.bayerTileReps, Gen.bayerRepeats, List.foldl, repeatAx, repeat1, repeat0, tile, if_true,
+      show ¬ ((1 : Int) = 0) by decide, if_false]
+  have hs1 : (mosaic (K := Int) { s0 := d, s1 := d, get := fun _ _ => 0 } R C os).s1 = os * (C / os / d * d) := by
+    simp only [mosaic, Gen.bayerTileReps, Gen.bayerRepeats, List.foldl, repeatAx, repeat1, repeat0, tile, if_true,
+      show ¬ ((1 : Int) = 0) by decide, if_false]
+  have kR := key R hR
+  have kC := key C hC
+  simp only [bayerShape, hs0, hs1]
+  cases hr : bcast R (os * (R / os / d * d)) with
+  | none =>
+    have : ¬ d * os ∣ R := fun h => by have := kR.mpr h; simp [hr] at this
+    simp [this]
+  | some r =>
+    have hRd : d * os ∣ R := kR.mp (by simp [hr])
+    cases hc : bcast C (os * (C / os / d * d)) with
+    | none =>
+      have : ¬ d * os ∣ C := fun h => by have := kC.mpr h; simp [hc] at this
+      simp [this]
+    | some c =>
+      have hCd : d * os ∣ C := kC.mp (by simp [hc])
+      simp [hRd, hCd]
+
 /-- what the code does outside the property's quantifier: a one-row image that is not a multiple of `d·os` is not refused —
 NumPy broadcasts it against the empty mosaic and the result has **zero rows** (witness: `collect_charge_bayer(ones((1,1,4)), …,
 'RGGB')` returns shape (0, 4)); with two or more rows a non-multiple is refused -/
@@ -176,7 +230,8 @@ theorem bayer_one_row_broadcasts_empty (C d os : Int) (hd : 0 < d) (hos : 0 < os
     ∃ c, bcast 1 (mosaic (K := Int) { s0 := d, s1 := d, get := fun _ _ => 0 } 1 C os).s0 = some 0 ∧
       (bayerShape 1 C d os = none ∨ bayerShape 1 C d os = some (0, c)) := by
   have hz : (mosaic (K := Int) { s0 := d, s1 := d, get := fun _ _ => 0 } 1 C os).s0 = 0 := by
-    simp only [mosaic, repeat1, repeat0, tile]
+    simp only [mosaic, Gen.bayerTileReps, Gen.bayerRepeats, List.foldl, repeatAx, repeat1, repeat0, tile, if_true,
+      show ¬ ((1 : Int) = 0) by decide, if_false]
     rcases lt_or_ge 1 os with h1 | h1
     · rw [Int.ediv_eq_zero_of_lt (by omega) h1]; simp
     · have : os = 1 := by omega
@@ -290,6 +345,37 @@ theorem adc_value (cap : Option K) (gain : Gain K) (img : Int → Int → K) (i 
   | some c => simp only [clipSat_eq_min]
 
 omit [LinearOrder K] [FloorRing K] in
+/-- the model's digitisation follows the source, step by step (regenerated, tools/specs/c16.py): saturate with
+`np.where(img > cap, cap, img)`, apply the gain through the power cube and `einsum`, `np.floor` of exactly that image (no added
+guard), clamp negatives to 0, cast last; the order comes from `gain.shape[0]` for 1-D/3-D gains and is 1 for 0-D/2-D; the einsum
+subscripts sum over the power axis, per pixel for 2-D/3-D gains -/
+theorem adc_matches_source :
+    Gen.adcSteps = [("saturate", "np.where(img > saturation_capacity, saturation_capacity, img)"), ("gain", "power cube + einsum"),
+                    ("floor", "img"), ("clamp", "img < 0 -> 0"), ("cast", "img.astype(dtype)")] ∧
+    Gen.adcOrderSource = [(0, "1"), (1, "gain.shape[0]"), (2, "1"), (3, "gain.shape[0]")] ∧
+    Gen.adcEinsum = [(1, "ijk,i->jk"), (2, "ijk,jk->jk"), (3, "ijk,ijk->jk")] := by decide
+
+/-- the power cube built by the source's loop raises slice `d` of an order-`n` model to `n − d` (highest power first, the last
+slice stays linear, there is no constant term) — about the regenerated loop bounds and exponent -/
+theorem power_cube_exponent (n d : Int) (h0 : 0 ≤ d) (h1 : d < n) : Gen.adcCubeExponent n d = n - d := by
+  unfold Gen.adcCubeExponent
+  by_cases h : 1 < n - d
+  · have h2 : n - d ≤ n := by omega
+    simp [h, h2]
+  · have : n - d = 1 := by omega
+    simp [h, this]
+
+/-- hence the gain polynomial of the model is the source's `einsum` over that power cube -/
+theorem adc_value_uses_source_exponents (g : List K) (x : K) :
+    polyGain g x = ∑ d ∈ range g.length, g.getD d 0 * x ^ (Gen.adcCubeExponent g.length d).toNat := by
+  rw [polyGain_eq_sum]
+  apply Finset.sum_congr rfl
+  intro d hd
+  have hd' : d < g.length := Finset.mem_range.mp hd
+  rw [power_cube_exponent (g.length : Int) (d : Int) (by omega) (by omega)]
+  congr 2
+  omega
+
 /-- the four gain forms: a scalar and a per-pixel gain multiply the (clipped) count; a coefficient vector and a per-pixel
 coefficient cube are the polynomial `Σ_d g[d]·x^(n-d)` -/
 theorem adc_gain_forms (g : K) (gl : List K) (gp : Int → Int → K) (n : Nat) (gc : Nat → Int → Int → K) (x : K) (i j : Int) :
